@@ -893,6 +893,10 @@ fn dumb_rational_div_floor(a: &BigRational, b: &BigRational) -> BigRational {
     (a / b).floor()
 }
 
+fn dumb_rational_mod_floor(a: &BigRational, b: &BigRational) -> BigRational {
+    a - b * (a / b).floor()
+}
+
 fn dumb_complex_div_floor(a: Complex64, b: Complex64) -> Complex64 {
     let c = a / b;
     Complex64::new(c.re.floor(), c.im.floor())
@@ -915,7 +919,7 @@ impl NNum {
             self,
             other,
             NInt::mod_floor,
-            Rem::rem,
+            dumb_rational_mod_floor,
             f64::rem_euclid,
             Rem::rem
         )
